@@ -1,22 +1,66 @@
 #!/venv/bin/python
-"""Render the seeded-change table of DESIGN.md section 9.4 from seeded/MATRIX.json, seeded/FIRSTRUN.json and the
-verification logs recorded in each meta.json."""
-import json, os
+"""Render the seeded-change tables of DESIGN.md section 9.4 from seeded/MATRIX.json (current verdicts of every quick
+check on every stored change), seeded/FIRSTRUN.json (verdict of the checks as they were when the change arrived) and
+the verification results recorded in each meta.json.  Output: markdown on stdout."""
+import json
+import os
+
 V = "/verif/seeded"
 M = json.load(open(f"{V}/MATRIX.json"))
 F = json.load(open(f"{V}/FIRSTRUN.json"))
-rows = []
-for m in sorted(M):
+
+
+def meta(m):
+    try:
+        return json.load(open(f"{V}/{m}/meta.json"))
+    except Exception:
+        return {}
+
+
+def short(m, n=105):
+    s = meta(m).get("summary", "").replace("\n", " ").replace("|", "/")
+    return s[:n] + ("..." if len(s) > n else "")
+
+
+def verified(m):
+    ver = meta(m).get("verified", {})
+    if not ver:
+        return "?"
+    if m.split("-")[1].startswith("p"):
+        return "yes" if "117 passed" in ver.get("baseline", "") else "NO"
+    ok = ver.get("demo_clean_rc") == 0 and ver.get("demo_mut_rc") not in (0, None) and "117 passed" in ver.get("baseline", "")
+    return "yes" if ok else "NO"
+
+
+brk = sorted(m for m in M if m.split("-")[1].startswith("m"))
+pre = sorted(m for m in M if m.split("-")[1].startswith("p"))
+print("**Breaking changes** (m1, m2: round 1; m3, m4: round 2)\n")
+print("| change | what it does | checks as they were when it arrived | own check now | other properties firing now | re-verified |")
+print("|---|---|---|---|---|---|")
+for m in brk:
     own = m.split("-")[0]
-    meta = json.load(open(f"{V}/{m}/meta.json"))
-    s = meta["summary"].replace("\n", " ").replace("|", "/")
-    s = s[:118] + ("..." if len(s) > 118 else "")
     r = M[m]
     ownr = ", ".join(r[own][1]) if r[own][0] == 1 else f"exit {r[own][0]}"
-    others = "; ".join(f"{p}: {', '.join(v[1])}" for p, v in sorted(r.items()) if p != own and v[0] != 0)
-    ver = meta.get("verified", {})
-    vtxt = "yes" if ver.get("demo_clean_rc") == 0 and ver.get("demo_mut_rc") not in (0, None) and "117 passed" in ver.get("baseline", "") else "?"
-    rows.append(f"| {m} | {s} | {F.get(m, '?')} | {ownr} | {others or '-'} | {vtxt} |")
-print("| change | what it does | first run | own check now fires | other properties firing | re-verified |")
-print("|---|---|---|---|---|---|")
-print("\n".join(rows))
+    others = "; ".join(f"{p}: {', '.join(v[1]) or 'exit 2'}" for p, v in sorted(r.items()) if p != own and v[0] != 0)
+    print(f"| {m} | {short(m)} | {F.get(m, '?')} | {ownr} | {others or '-'} | {verified(m)} |")
+print("\n**Behaviour-preserving refactorings** (round 2; every check must stay silent)\n")
+print("| change | what it does | checks as they were when it arrived | now |  baseline with p1+p2 |")
+print("|---|---|---|---|---|")
+for m in pre:
+    r = M[m]
+    bad = "; ".join(f"{p}: {'VIOLATION ' + ', '.join(v[1]) if v[0] == 1 else 'exit 2'}" for p, v in sorted(r.items()) if v[0] != 0)
+    print(f"| {m} | {short(m)} | {F.get(m, '?')} | {bad or 'silent (all 20 checks)'} | {verified(m)} |")
+n1 = [m for m in brk if m.endswith(("m1", "m2"))]
+n2 = [m for m in brk if m.endswith(("m3", "m4"))]
+
+
+def first_caught(m):
+    f = F.get(m, "")
+    return f.startswith("caught") or f.startswith("round 2: caught")
+
+
+print(f"\nRound 1: {sum(first_caught(m) for m in n1)} of {len(n1)} caught by the own property's check as it was when the change arrived; "
+      f"round 2: {sum(first_caught(m) for m in n2)} of {len(n2)}. Now: "
+      f"{sum(M[m][m.split('-')[0]][0] == 1 for m in brk)} of {len(brk)} caught by the own check. Preserving refactorings silent at arrival: "
+      f"{sum('silent' in F.get(m, '') and 'FALSE' not in F.get(m, '') and 'exit 2' not in F.get(m, '') for m in pre)} of {len(pre)}; now "
+      f"{sum(all(v[0] == 0 for v in M[m].values()) for m in pre)} of {len(pre)}.")
